@@ -642,7 +642,15 @@ private:
             log_event(StructuredLogger::Level::Info,
                       "control.connection.accepted",
                       {{"remote", remote_address}});
-            handle_client(client, remote_address);
+            try {
+                handle_client(client, remote_address);
+            } catch (const std::exception& ex) {
+                // A malformed or hostile request must never take the control thread (and with it the daemon) down.
+                log_event(StructuredLogger::Level::Error,
+                          "control.request.exception",
+                          {{"remote", remote_address},
+                           {"what", ex.what()}});
+            }
             close_socket(client);
         }
     }
